@@ -9,7 +9,7 @@ T  MeshTrace.tla judges the property on every real mesh (balance, no degenerate 
    volume, vertices on straddling edges, inside the box).
 """
 import vlib
-from worldcheck import run_worlds
+from worldcheck import run_worlds, run_scenes
 
 LEVEL = "model_checking"
 
@@ -49,3 +49,5 @@ def run(chk, replay):
         frac = {2: 1.0, 3: 1.0, 4: 0.4}
     run_worlds(chk, replay, "MarchCubes", "MeshTrace", "c05-replay", ("mcu", "mco"), plans, frac,
                lambda d, b, l, n, sd: CFG % (d[0], d[1], d[2], b, l, n, sd), "nt")
+    if not replay and not chk.violations:
+        run_scenes(chk, "c05-scenes")
